@@ -34,8 +34,17 @@ func genPolicy(g *gen, tier string) *Scenario {
 	if maxCost > capacity {
 		maxCost = capacity
 	}
+	oversize := g.pct(30)
+	if oversize {
+		sc.Family += ",oversize-inserts"
+	}
 	cost := func() int64 {
 		switch x := g.n(100); {
+		case x < 1 && oversize:
+			// heavier than the whole cache: Set and the loader refuse such a value, a promotion from a
+			// secondary store that was filled under a larger MaxSize hands it to the policy; "after any
+			// insert" the bounds hold again (the policy evicts it, possibly with everything else)
+			return capacity + 1 + int64(g.r.Uint64()%uint64(2*capacity))
 		case x < 4:
 			return pick(g, capacity, capacity-1, capacity/2+1, capacity/2)
 		case x < 10:
@@ -111,7 +120,7 @@ func runPolicyScenario(sc *Scenario) *RunData {
 		for i, op := range sc.Clients[0] {
 			switch op.Kind {
 			case "pset":
-				if op.Cost >= 1 && op.Cost <= sc.Cache.MaxSize {
+				if op.Cost >= 1 {
 					p.Set(op.Key, op.Cost)
 				}
 			case "pacc":
